@@ -945,42 +945,50 @@ def r_cid_glue(model, rep):
     rep.ob("R-DECODE-GLUE", "get_date_type_respin:no-match", bool(nomatch), site=cx.site(f.node),
            msg="" if nomatch else "no-match no longer returns (None, None, None)")
     main = [r for r in rets if r not in nomatch]
-    ok = len(main) == 1 and main[0].value[0] == "tuple" and len(main[0].value[1]) == 3
-    if not ok:
+    # the match object and its three groups, however they are taken (groupdict()[k], group(k), group(a, b, c) unpacked)
+    found = applied_regex(model, f)
+    groups = {}
+    for r in main:
+        for x in T.walk(r.raw if r.raw is not None else r.value):
+            if x[0] == "call" and x[1][0] == "attr" and x[1][2] == "group" and len(x[2]) == 1 and x[2][0][0] == "const":
+                groups.setdefault(x[2][0][1], x)
+    if not main or set(groups) != {"date", "type", "respin"} or len(set(g[1][1] for g in groups.values())) != 1:
         rep.ob("R-DECODE-GLUE", "get_date_type_respin:result", False, site=cx.site(f.node), msg="unexpected result shape")
         return
-    d, t, r = main[0].value[1]
-    gd = d[1] if d[0] == "sub" else None
-    ok = gd is not None and d == ("sub", gd, ("const", "date")) and t == ("sub", gd, ("const", "type")) \
-        and r == ("call", ("global", "int"), (("sub", gd, ("const", "respin")),), ())
-    rep.ob("R-DECODE-GLUE", "get_date_type_respin:result", ok, site=cx.site(f.node),
-           msg="" if ok else "result is not (groups['date'], groups['type'], int(groups['respin']))")
-    if not ok:
-        return
-    st = dict()
-    for ev in cx.events:
-        if ev.kind == "store" and ev.target[0] == "sub" and ev.target[1] == gd:
-            st.setdefault(ev.target[2][1], []).append(ev)
-    # respin None -> 0
-    ok = any(ev.value == ("const", 0) and any(g[1] and g[0] == ("cmp", ("is",), (("sub", gd, ("const", "respin")), ("const", None)))
-                                                for g in ev.guards) for ev in st.get("respin", []))
-    rep.ob("R-DECODE-GLUE", "get_date_type_respin:missing-respin-is-0", ok and len(st.get("respin", [])) == 1, site=cx.site(f.node),
-           msg="" if ok else "a missing respin is no longer decoded as 0")
-    # type: empty -> production ; else table lookup of suffix without the dot; KeyError -> ValueError
-    tev = st.get("type", [])
-    prod = [ev for ev in tev if ev.value == ("const", "production")]
-    look = [ev for ev in tev if ev.value[0] == "sub" and ev.value[1] == ("global", "COMPOSE_TYPE_SUFFIXES")]
-    ok = len(prod) == 1 and len(look) == 1 and len(tev) == 2
-    msg = "" if ok else "type decoding is not: missing -> 'production', else COMPOSE_TYPE_SUFFIXES[suffix without dot]"
-    if ok:
-        key = look[0].value[2]
-        ok = key == ("sub", ("sub", gd, ("const", "type")), ("slice", ("const", 1), None, None))
-        msg = "" if ok else "suffix is looked up as %s, expected group[1:]" % T.show(key)
-    if ok:
-        g = prod[0].guards[-1]
-        ok = g == (("unary", "not", ("sub", gd, ("const", "type"))), True) or g == ((("cmp", ("is",), (("sub", gd, ("const", "type")), ("const", None)))), True)
-        msg = "" if ok else "default type is assigned under %s" % T.show(g[0])
-    rep.ob("R-DECODE-GLUE", "get_date_type_respin:type-decoding", ok, site=cx.site(f.node), msg=msg)
+    M = groups["date"][1][1]
+    gt, gr, gd_ = groups["type"], groups["respin"], groups["date"]
+    r_none = ("cmp", ("is",), (gr, ("const", None)))
+    look = ("sub", ("global", "COMPOSE_TYPE_SUFFIXES"), ("sub", gt, ("slice", ("const", 1), None, None)))
+    # what is returned in each of the four cases (type suffix present?, respin present?)
+    ok_res, ok_respin, ok_type, why = True, True, True, ""
+    for has_type in (False, True):
+        for respin_none in (False, True):
+            sc = facts.Scenario(cx, atoms={M: True, gt: has_type, r_none: respin_none})
+            vals = []
+            for r in main:
+                if sc.holds(r) is False:
+                    continue
+                v = T.degate(sc.term(r.raw if r.raw is not None else r.value))
+                if v not in vals:
+                    vals.append(v)
+            if len(vals) != 1 or vals[0][0] != "tuple" or len(vals[0][1]) != 3:
+                ok_res, why = False, "result for type %s / respin %s is %s" % (
+                    "present" if has_type else "missing", "missing" if respin_none else "present", [T.show(v)[:80] for v in vals])
+                continue
+            d, t, rs = vals[0][1]
+            ok_res = ok_res and d == gd_
+            want_r = [("call", ("global", "int"), (("const", 0),), ()), ("const", 0)] if respin_none else [("call", ("global", "int"), (gr,), ())]
+            if rs not in want_r:
+                ok_respin = False
+            want_t = look if has_type else ("const", "production")
+            if t != want_t:
+                ok_type, why = False, "with the type suffix %s the type is decoded as %s" % ("present" if has_type else "missing", T.show(t)[:80])
+    rep.ob("R-DECODE-GLUE", "get_date_type_respin:result", ok_res, site=cx.site(f.node),
+           msg="" if ok_res else "result is not (groups['date'], <type>, int(<respin>)): %s" % why)
+    rep.ob("R-DECODE-GLUE", "get_date_type_respin:missing-respin-is-0", ok_respin, site=cx.site(f.node),
+           msg="" if ok_respin else "the respin must be decoded as int(group) and a missing respin as 0")
+    rep.ob("R-DECODE-GLUE", "get_date_type_respin:type-decoding", ok_type, site=cx.site(f.node),
+           msg="" if ok_type else "type decoding is not: missing -> 'production', else COMPOSE_TYPE_SUFFIXES[suffix without dot]: %s" % why)
     unk = [ev for ev in cx.events if ev.kind == "raise" and ev.value[0] == "call" and ev.value[1] == ("global", "ValueError")
            and any(g[0] == ("exc", "KeyError") for g in ev.guards)]
     rep.ob("R-DECODE-GLUE", "get_date_type_respin:unknown-suffix-refused", bool(unk), site=cx.site(f.node),
